@@ -17,7 +17,7 @@ import numpy as np
 from fixtures import c19parts, v4
 from props import c02
 
-RULE = ('a case = 1-3 synthetic data sets of one format (MVF v4 in-memory telstate + npy chunk store, HDF5 v3, HDF5 v2; '
+RULE = ('a case = 1-3 synthetic data sets of one format (MVF v4 in-memory telstate + npy chunk store, HDF5 v3, v2, v1; '
         'also v3+v4 mixtures) with 2-7 dumps each, distinct start times (sometimes equal: refused), equal dump periods '
         '(sometimes different: must be refused), 1-3 target events per part drawn from a pool of 6 targets incl. shared '
         'aliases and a same-name-different-target pair, 1-4 activity events, 0-3 labels, float / string / int sensors '
@@ -66,12 +66,14 @@ def gen_events(rng, T, vocab, first=True, maxn=3):
 def gen_case(rng):
     mix = rng.random()
     k = rng.choice([1, 2, 2, 2, 2, 3, 3])
-    if mix < 0.45:
+    if mix < 0.40:
         fmts = ['v4'] * k
-    elif mix < 0.68:
+    elif mix < 0.62:
         fmts = ['v3'] * k
-    elif mix < 0.90:
+    elif mix < 0.80:
         fmts = ['v2'] * k
+    elif mix < 0.90:
+        fmts = ['v1'] * k
     else:
         k = max(k, 2)
         fmts = [rng.choice(['v3', 'v4']) for _ in range(k)]
@@ -96,7 +98,7 @@ def gen_case(rng):
     elif k >= 2 and special < 0.18 and not mixed:
         kind = 'subarray'
         ants[rng.randrange(k)] = ('m000', 'm062')
-    elif k >= 2 and special < 0.25 and not mixed and fmts[0] != 'v2':
+    elif k >= 2 and special < 0.25 and not mixed and fmts[0] not in ('v1', 'v2'):
         kind = 'spw'
         cfv[rng.randrange(k)] = 1
     pool = rng.sample(range(len(c19parts.TARGETS)), rng.randint(2, 4))
@@ -106,6 +108,8 @@ def gen_case(rng):
     for i in range(k):
         T = rng.randint(2, 7)
         sens = {}
+        if fmts[i] == 'v1':
+            present = {s: [False] * k for s in SHORTS}      # the v1 writer has no such sensors
         if present['f'][i]:
             n = rng.choice([1, 2, 2, 3])
             pos = sorted(rng.sample(range(-4, 4 * T + 4), n))
@@ -258,6 +262,12 @@ class Case:
         self.bad += 1
         self.ctx.disagree('fmt=%s;kind=%s;%s' % (self.fmt, self.gen['kind'], sig), self.doc(**at), impl, model, what,
                           spec=spec, kind=kind)
+
+
+def squeeze1(a):
+    """singleton axes canonicalised away: the v1 / v2 indexers keep all three dimensions for scalar indices"""
+    a = np.asarray(a)
+    return a.reshape([n for n in a.shape if n != 1])
 
 
 def nan_eq(a, b):
@@ -468,6 +478,29 @@ def gen_axis_index(rng, n, head):
     return list(l), [3, l], 'list'
 
 
+def full_arrays(cs, c, twins_arrays, masks, tag):
+    """every array of the whole, completely, against the glued stored arrays of the twins under the masks"""
+    tks, fk, bk = masks
+    tk_all = np.concatenate([np.asarray(t, dtype=bool) for t in tks]) if tks else np.zeros(0, bool)
+    fk, bk = np.asarray(fk, dtype=bool), np.asarray(bk, dtype=bool)
+    for arr in ARRAYS:
+        glued = np.concatenate([ta[arr] for ta in twins_arrays])
+        exp = glued[tk_all] if arr == 'timestamps' else glued[np.ix_(tk_all, fk, bk)]
+        try:
+            with warnings.catch_warnings():
+                warnings.simplefilter('ignore')
+                got = np.asarray(getattr(c, arr)[:])
+        except Exception as e:      # noqa: BLE001
+            cs.disagree('stage=data;array=%s;index=all;%s;what=raises' % (arr, tag), repr(e), None,
+                        'reading an array of the concatenation raised', spec=list(exp.shape), array=arr)
+            continue
+        cs.ctx.traces_validated += 1
+        if not nan_eq(got, exp):
+            cs.disagree('stage=data;array=%s;index=all;%s;what=wrong_%s' % (arr, tag, 'shape' if got.shape != exp.shape else 'data'),
+                        list(got.shape), None, 'an array of the whole is not the concatenation of the arrays of the parts',
+                        spec=list(exp.shape), array=arr)
+
+
 def stage_data(cs, c, twins_arrays, masks, rng, nidx, tag, tws=None, fw_touched=False):
     """masks = (tk list per part, fk, bk) in force on the whole; compares nidx random indices per array kind.
     The reference is the stored arrays of the twins glued along time with the masks of the whole applied; when the
@@ -477,8 +510,12 @@ def stage_data(cs, c, twins_arrays, masks, rng, nidx, tag, tws=None, fw_touched=
     tks, fk, bk = masks
     tk_all = np.concatenate([np.asarray(t, dtype=bool) for t in tks]) if tks else np.zeros(0, bool)
     fk, bk = np.asarray(fk, dtype=bool), np.asarray(bk, dtype=bool)
-    for _ in range(nidx):
-        arr = rng.choice(ARRAYS)
+    # a fixed battery (list / mask / slice / scalar head with scalar tails, over the part boundaries) on every array
+    # kind, then nidx random indices
+    todo = [(a, k) for a in ARRAYS for k in range(5 if a != 'timestamps' else 2)] if tag == 'after=open' else []
+    todo += [(None, None)] * nidx
+    for (arr, fixed) in todo:
+        arr = arr or rng.choice(ARRAYS)
         glued = np.concatenate([ta[arr] for ta in twins_arrays])
         if arr == 'timestamps':
             sel = glued[tk_all]
@@ -487,6 +524,8 @@ def stage_data(cs, c, twins_arrays, masks, rng, nidx, tag, tws=None, fw_touched=
             sel = glued[np.ix_(tk_all, fk, bk)]
             tail, tailkeep = [len(fk), len(bk)], [[int(x) for x in fk], [int(x) for x in bk]]
         label_tie = True
+        if any(sel.shape[ax] == 0 for ax in range(1, sel.ndim)):
+            continue        # empty tail selection: C05 F10b (v1 data sets are concatenated indexers themselves)
         if tws is not None:
             with warnings.catch_warnings():
                 warnings.simplefilter('ignore')
@@ -498,15 +537,26 @@ def stage_data(cs, c, twins_arrays, masks, rng, nidx, tag, tws=None, fw_touched=
                             'harness: what the stand-alone parts present differs from their stored arrays under the same masks',
                             spec=list(sel.shape), kind='tie')
                 continue
-        if any(sel.shape[ax] == 0 for ax in range(1, sel.ndim)):
-            continue        # empty tail selection: C05 F10b
-        nax = rng.randint(1, sel.ndim)
-        py, wire, forms = [], [], []
-        for ax in range(nax):
-            p, w, f = gen_axis_index(rng, sel.shape[ax], head=(ax == 0))
-            py.append(p)
-            wire.append(w)
-            forms.append(f)
+        if fixed is not None:
+            n = sel.shape[0]
+            if n == 0:
+                continue
+            alt = [i % 2 == 0 for i in range(n)]
+            heads = [(sorted({0, n - 1}), [3, sorted({0, n - 1})], 'list'), (np.array(alt), [2, [int(x) for x in alt]], 'mask'),
+                     (slice(0, n), [1, [0], [n], []], 'slice'), (n - 1, [0, n - 1], 'int'), ([0], [3, [0]], 'list')]
+            tails = [[(0, [0, 0], 'int'), (0, [0, 0], 'int')], [(slice(None), [1, [], [], []], 'full'), (0, [0, 0], 'int')],
+                     [(0, [0, 0], 'int'), (0, [0, 0], 'int')], [(0, [0, 0], 'int')], [(slice(None), [1, [], [], []], 'full'), (0, [0, 0], 'int')]]
+            items = [heads[fixed]] + (tails[fixed] if arr != 'timestamps' else [])
+            py, wire, forms = [list(x[0]) if isinstance(x[0], list) else x[0] for x in items], [x[1] for x in items], [x[2] for x in items]
+            nax = len(items)
+        else:
+            nax = rng.randint(1, sel.ndim)
+            py, wire, forms = [], [], []
+            for ax in range(nax):
+                p, w, f = gen_axis_index(rng, sel.shape[ax], head=(ax == 0))
+                py.append(p)
+                wire.append(w)
+                forms.append(f)
         # numpy OUTER indexing oracle
         exp = sel
         for ax in reversed(range(nax)):
@@ -538,6 +588,7 @@ def stage_data(cs, c, twins_arrays, masks, rng, nidx, tag, tws=None, fw_touched=
         ctx.traces_validated += 1
         ctx.count('data=' + arr)
         ctx.count('data_head=' + forms[0])
+        got, exp = squeeze1(got), squeeze1(exp)
         if not nan_eq(got, exp):
             cs.disagree(sig + ';what=wrong_' + ('shape' if got.shape != exp.shape else 'data'), list(got.shape), mo[0][2] if mo[0][0] else None,
                         'indexing across the parts differs from indexing the concatenated arrays', spec=list(exp.shape),
@@ -563,7 +614,7 @@ def stage_data(cs, c, twins_arrays, masks, rng, nidx, tag, tws=None, fw_touched=
             inpart = (rowl >= r0) & (rowl < r0 + len(t))
             gr[inpart] = starts_glued[i] + (rowl[inpart] - r0)
         vals = flat[gr * width + off].reshape(mo[0][2]) if len(lab) else np.zeros(mo[0][2], dtype=glued.dtype)
-        if list(got.shape) != mo[0][2] or not nan_eq(got, vals):
+        if not nan_eq(got, squeeze1(vals)):
             cs.disagree(sig + ';what=vs_model', list(got.shape), mo[0][2], 'implementation differs from the model', kind='tie',
                         array=arr, index=wire)
 
@@ -823,6 +874,8 @@ def run_case(ctx, cseed, gen=None, stages=('open', 'data', 'select', 'scans', 'o
             same_shape = len({(a['vis'].shape[1:]) for a in arrays}) == 1
             if 'data' in stages and same_shape:
                 tks = [keep0[segs[i]:segs[i + 1]] for i in range(len(parts))]
+                full_arrays(cs, c, [arrays[i] for i in sorted_idx],
+                            (tks, [1] * arrays[0]['vis'].shape[1], [1] * arrays[0]['vis'].shape[2]), 'after=open')
                 stage_data(cs, c, [arrays[i] for i in sorted_idx], (tks, [1] * arrays[0]['vis'].shape[1], [1] * arrays[0]['vis'].shape[2]),
                            drng, ctx.scale(4, 8), 'after=open')
             single = len(c.subarrays) == 1 and len(c.spectral_windows) == 1
@@ -917,11 +970,23 @@ def run(ctx):
     for f in ctx.findings:
         w = f['witness']
         run_case(ctx, w.get('cseed', 0), gen=w.get('gen'))
-    n = ctx.scale(60, 1500)
+    n = ctx.scale(70, 1500)
     seeds = [ctx.rng.randrange(1 << 30) for _ in range(n)]
-    sample = []
+    kinds = {}
     for cseed in seeds:
-        run_case(ctx, cseed)
+        cs = run_case(ctx, cseed)
+        kinds[cs.gen['kind']] = kinds.get(cs.gen['kind'], 0) + 1
+    # every run meets every special kind of case a few times, whatever the seed
+    quota = {'period': ctx.scale(4, 40), 'tie': ctx.scale(2, 20), 'subarray': ctx.scale(3, 30), 'spw': ctx.scale(3, 30)}
+    tries = 0
+    while any(kinds.get(k, 0) < q for k, q in quota.items()) and tries < 20000:
+        tries += 1
+        cseed = ctx.rng.randrange(1 << 30)
+        kind = gen_case(random.Random(cseed))['kind']
+        if kinds.get(kind, 0) < quota.get(kind, 0):
+            run_case(ctx, cseed)
+            kinds[kind] = kinds.get(kind, 0) + 1
+            seeds.append(cseed)
     if ctx.tier == 'thorough':
         incoq(ctx, seeds[:12])
 
